@@ -177,7 +177,10 @@ package wire
 // the connect request announces the configured interval and timeout (server defaults only for zero),
 // and the client pings with the configured ones (client defaults only for zero)
 //@ func Connect
-//@   props C15
+//@   props C15 C06 C07
+//@   assert[C06,C07] go ClientConn).run: arg0 != nil && arg0.replyCh != nil && len(arg0.replyCh) == 0 && arg0.upstreams != nil && arg0.downstreams != nil && arg0.upstreams.mu != nil && arg0.downstreams.mu != nil
+//@   assert[C07] go ClientConn).run: len(arg0.upstreams.acks) == 0 && len(arg0.upstreams.aliases) == 0 && len(arg0.upstreams.messageWriters) == 0 && len(arg0.downstreams.dps) == 0 && len(arg0.downstreams.dpsUnreliable) == 0 && len(arg0.downstreams.ackCompletes) == 0 && len(arg0.downstreams.metadata) == 0 && len(arg0.downstreams.aliases) == 0
+//@   assert[C06] go ClientConn).run: arg0.transport == c.Transport && arg0.unreliableTransport == c.UnreliableTransport && arg0.idGenerator.currentValue == 0 && cap(arg0.msgRequestCh) >= 1 && cap(arg0.msgPingCh) >= 1
 //@   assert call waitForConnected: arg0.pingInterval == ite(c.PingInterval == 0, defaultPingInterval, c.PingInterval) && arg0.pingTimeout == ite(c.PingTimeout == 0, defaultPingTimeout, c.PingTimeout)
 //@   assert call waitForConnected: arg1 == ite(c.PingInterval == 0, defaultPingIntervalForServer, c.PingInterval) && arg2 == ite(c.PingTimeout == 0, defaultPingTimeoutForServer, c.PingTimeout)
 
@@ -193,3 +196,7 @@ package wire
 //@   requires c.downstreams != nil && c.downstreams.mu != nil && c.downstreams.metadata != nil
 //@   ensures result1 == nil && fresh(result0) && cap(result0) >= 1
 //@   ensures has(c.downstreams.metadata, alias) && has(c.downstreams.metadata[alias], srcNodeID) && c.downstreams.metadata[alias][srcNodeID] == result0
+
+// ---------------------------------------------------------------- C06 / C07: a new wire connection
+// starts with empty routing tables of its own (nothing inherited from an earlier connection), a
+// request-id generator at its start value and buffered inboxes.
